@@ -4,7 +4,7 @@ CFG = {
     "gens": ["C14"],
     "feature": "c14",
     "rule": (
-        "five case kinds: c14:b64 (OptAttr::decode_base64 into arrays of 21 sizes: valid text of every length around the bound, padded / "
+        "eight case kinds: c14:b64 (OptAttr::decode_base64 into arrays of 21 sizes: valid text of every length around the bound, padded / "
         "non-url-safe / over-long / dangling-character / trailing-bit / foreign-character variants, random alphabet strings); "
         "c14:jwk and c14:parse (for each of the 16 algorithms a random key exported by the real code, then: both canonical forms, up to "
         "24 (thorough: all) member permutations, random whitespace, unknown members of 16 JSON value shapes in every position, known-but-ignored "
@@ -13,6 +13,20 @@ CFG = {
         "duplicate members, JSON escapes in names and values, 16 non-JSON texts, degenerate documents); c14:secret and c14:public (for every "
         "algorithm random bytes of EVERY length 0..130, the boundary scalars 0, 1, order-1, order, order+1, all-ff, valid keys in every accepted "
         "encoding — compressed, uncompressed, other parity, compact — and near misses: identity, bad tag, truncated, extended, bit-flipped). "
+        "Second wave (coverage gaps): c14:enc (export through JwkBufferEncoder::new(..).alg(..).key_ops(S).kid(k) + finalize for EVERY subset S of "
+        "the 8 operations, with and without a kid, key type and mode rotating over the 8 asymmetric algorithms; every key type x mode x "
+        "{plain, ops+kid, kid, empty set}; public-only keys; the G1/G2 views of a G1G2 key; 14 kid texts incl. those that need JSON escaping; "
+        "the text is judged by serde_json (well-formed object with exactly the members asked for), compared with the crate's serde encoder "
+        "JwkSerialize, parsed back by JwkParts::from_slice and re-imported); key_ops / use members on import (every subset of names in quick: "
+        "singletons, pairs, full set and a sample; unknown names, duplicates, non-array values, non-string elements, use = enc/sig/other/empty/"
+        "wrong types, use and key_ops in both orders, use twice); c14:keypair (from_keypair_bytes / to_keypair_bytes of the five concrete key "
+        "types: valid pairs built from the two single exports, EVERY length 0..n+m+2 with random bytes and with the valid pair cut / padded, "
+        "secret||public-of-another-key, halves swapped, single-bit flips in either half, scalars 0 / 1 / all-ff / order-1 / order / order+1 "
+        "with their own and with a foreign public half, other SEC1 tags, second encodings of a Curve25519 public key, public-only keys); "
+        "c14:convert (convert_key for all 16x16 algorithm pairs from a key pair and from a public-only key; Ed25519->X25519 for random pairs, "
+        "their public halves as bytes and as JWK, the 8 small-order points in canonical and non-canonical spellings, every non-canonical "
+        "y = p..2^255-1 with both sign bits, small y, 40 random 32-byte strings; BLS G1G2->G1/G2 for keys made from seeds, their public halves, "
+        "boundary scalars). "
         "Every accepted key is exported in all forms and re-imported by the oracle. non-trivial = an import that reached the key-material "
         "checks (a key was accepted, or the error is InvalidKeyData, or the outcome is a panic) or a base64 / parse case with a non-empty "
         "input; distinct = hash of the case"
@@ -24,6 +38,10 @@ CFG = {
         "byte beyond the reported length is touched)",
         "serde-json-core 0.5.1 behaves as modelled byte by byte (MapAccess / SeqAccess / IgnoredAny, borrowed strings without escape processing); "
         "validated by every c14:parse case including the malformed ones",
+        "ed25519-dalek 2.1 VerifyingKey::from_bytes is CompressedEdwardsY::decompress and keeps the 32 bytes as given (so a public-only "
+        "Ed25519 key always holds bytes that decompress: the invariant behind decompress().unwrap() in to_x25519_keypair; Lean: ConvPrims.Agrees, "
+        "convert_total_of_import); validated by every c14:convert case (small-order and non-canonical encodings included)",
+        "KeyOpsSet values reachable through the public API are unions of the eight KeyOps constants (< 256)",
         "SHA-256 is outside the Lean model: the model produces the hashed text, the harness compares it with the text the real encoder hashes and "
         "checks the thumbprint against its own FIPS 180-4 implementation and an independent RFC 7638 canonicalisation",
     ],
@@ -32,7 +50,12 @@ CFG = {
         "SEC 1/2: scalar multiplication, on-curve test, decompression, SEC1 tags 02/03/04/05) and so checks the p256/p384/k256 crates independently; for "
         "Ed25519, X25519 and BLS12-381 the public-key derivation and point validation are taken from the real crates through a per-case table "
         "('prim'), i.e. they are trusted, and only askar's own glue (length checks, d/x consistency check, encodings, dispatch, error kinds) is modelled",
-        "the harness's independent SHA-256, base64url and RFC 7638 code (harness/src/c14.rs)",
+        "for the c14:keypair and c14:convert cases Curve25519 is NOT taken from the table: the driver computes Ed25519 public keys, the validity "
+        "of Ed25519 public-key bytes (lenient decompression), SHA-512, the clamped X25519 scalar, X25519 public keys and the RFC 7748 section 4.1 "
+        "map u = (1+y)/(1-y) with the Lean specifications AskarModel/Crypto/{Ed25519,X25519,Sha2}.lean; the harness oracle checks the converted "
+        "public key against its own GF(2^255-19) arithmetic (four 64-bit limbs) and against X25519's own derivation",
+        "the harness's independent SHA-256, base64url, RFC 7638 and field-arithmetic code (harness/src/c14.rs); serde_json as the judge of the "
+        "well-formedness of exported JWK text",
     ],
 }
 
@@ -43,6 +66,15 @@ def nontrivial(rec):
     kind = case.get("kind", "")
     if kind in ("c14:b64", "c14:parse"):
         return len(case.get("hex", "")) > 0
+    if kind == "c14:enc":      # the encoder ran to the end and the text was parsed back (or refused) by the library's parser
+        return isinstance(out, dict) and "text" in out
+    if kind == "c14:keypair":  # right total length (the halves were looked at), or the public-only export
+        if not isinstance(out, dict):
+            return False
+        return "keypair" in out or (out.get("err") == "InvalidKeyData" and case.get("class", "").split(":")[1:2] not in (["len"],))
+    if kind == "c14:convert":  # a conversion that was carried out, or a panic
+        conv = out.get("conv") if isinstance(out, dict) else None
+        return isinstance(conv, dict) and ("alg" in conv or conv.get("err") == "Panic")
     if not isinstance(out, dict):
         return False
     if "alg" in out:          # a key was accepted (and exported / re-imported)
